@@ -1,7 +1,18 @@
+def _norm(m):
+    # the first token of the model line says how the scenario's min_fee answers were obtained (ok+concrete: all predicted
+    # from the concrete size function of FeeConcrete.v; ok+measured / ok+calibrated: K measured on the builder / derived
+    # from the first answer for a new input set; ok+concrete+measured: both; ok+nofee: no fee answer recorded)
+    return "ok" + m[m.index(" "):] if m.startswith("ok+") and " " in m else m
+
+
+def _compare(rec):
+    return rec["impl"] == _norm(rec["model"])
+
+
 def _nontrivial(rec):
     # non-trivial: the model ran the scenario (no desync), a change computation or a build succeeded, and the judge could
     # evaluate the ledger rule on a really signed transaction (verdict holds / fails)
-    m = rec["model"]
+    m = _norm(rec["model"])
     if not m.startswith("ok R "):
         return False
     if " desync" in m.split(" S ")[0]:
@@ -23,20 +34,22 @@ CFG = {
                   "fee covers the minimum and honours the request; sequential fee_for_output increments telescope. The model is tied to the compiled code by "
                   "an exact differential run in which EVERY min_fee answer of the real builder is recomputed by the model, and the judge evaluates the "
                   "ledger rule (C15's spec functions) on the size of transactions the harness really signs.",
-    "level_note": "Trusted: Coq kernel; C05's hand-written change model and this property's fee model (tied by correspondence on the generated cases); "
+    "level_note": "On the plain sub-class (key / Byron inputs, outputs; no other body field or witness kind) C06_sufficient_concrete / C06_validate_concrete have no oracle premise: fee >= a*|enc(signed tx)|+b with enc the C01 schema encoder. Elsewhere K is an opaque per-state constant. Trusted: Coq kernel; C05's hand-written change model and this property's fee model (tied by correspondence on the generated cases); "
                   "equality |fake_full_tx| = |really signed tx| is C18's theorem, re-measured here on every built transaction; extraction and glue. No axioms. "
                   "K, the ex-unit total and the reference-script bytes are per-scenario measurements / ground truth supplied by the harness.",
     "theorems": ["C06_sufficient", "C06_fix_split", "C06_legacy_sufficient", "C06_sufficient_refuted", "C06_notless_refuted", "C06_priced", "C06_split", "C06_policy", "C06_validate",
-                 "C06_late_fee_request_legacy_refuted", "C06_select", "C06_telescope", "C06_telescope_closed", "C06_slack_widths"],
+                 "C06_late_fee_request_legacy_refuted", "C06_select", "C06_telescope", "C06_telescope_closed", "C06_slack_widths", "C06_concrete_size", "C06_sufficient_concrete", "C06_validate_concrete"],
     "allowed_axioms": [],
-    "compare": "exact",
+    "compare": _compare,
     "nontrivial": _nontrivial,
     "gen_timeout": 900,
     "rule": "scenarios (C05's streams ada/tight/assets/pack/mix/sel/edge + width: change, fee and output coins at 2^16 / 2^32 +-3, fee requests around the "
             "estimate and the width boundaries, 22..25 outputs; late: set_fee / set_min_fee after the change computation) over key, Byron, native-script "
             "and Plutus inputs (ex-unit prices, reference scripts), collateral, certificates, withdrawals, mint, required signers, metadata; compared exactly: "
             "result of every operation, final fee, outputs, inputs, full_size() and the public min_fee(); every recorded min_fee answer is recomputed by the "
-            "model (disagreement = desync); the judge needs fee >= a*|signed tx| + b + ex-unit cost + tiered ref-script fee for every transaction build_tx "
+            "model (disagreement = desync): on the plain sub-class (key / Byron inputs and outputs only: first token ok+concrete, about 1 scenario in 9) from the "
+            "CONCRETE size function of FeeConcrete.v (C07 full_tx_size, C18 witness counts) with nothing measured, elsewhere (ok+measured) from K measured on a "
+            "clone of the builder before the operation, or (ok+calibrated) derived from the first answer for a new input set; the judge needs fee >= a*|signed tx| + b + ex-unit cost + tiered ref-script fee for every transaction build_tx "
             "returns and, when nothing was edited after a successful change computation, for the transaction build_tx_unsafe yields; "
             "non-trivial = distinct scenario that ran without desync and whose verdict is holds or fails",
     "trusted_base": [
